@@ -91,11 +91,18 @@ def _case(draw, tier):
                          "ext": draw(st.sampled_from([".mzML", ".mzXML", ".raw"])), "spectra": spectra})
         files.append({"runs": runs, "ns": draw(st.booleans())})
     return {"files": files, "score_names": score_names, "opt_attrs": draw(st.booleans()),
+            "decoy_prefix": draw(st.sampled_from(["decoy_", "decoy_", "rev_"])), "exclude": draw(st.booleans()),
             "negative": draw(st.sampled_from(["none"] * 10 + ["percolator", "notxml"]))}
 
 
 def strategy(tier):
     return _case(tier)
+
+
+def _pfx(name, case):
+    """accessions are generated with 'decoy_'; render them with the case's prefix"""
+    dp = case.get("decoy_prefix", "decoy_")
+    return dp + name[len("decoy_"):] if name.startswith("decoy_") else name
 
 
 def render(f, case):
@@ -121,9 +128,9 @@ def render(f, case):
                     if case["opt_attrs"]:
                         opt = f' num_missed_cleavages="{h["opt"][0]}" num_tol_term="{h["opt"][1]}" num_matched_peptides="{h["opt"][2]}"'
                     descr = " Some protein OS=Homo sapiens" if h["protein_descr"] else ""
-                    out.append(f'<search_hit hit_rank="{rank}" peptide="{h["peptide"]}" protein={quoteattr(h["protein"] + descr)} '
+                    out.append(f'<search_hit hit_rank="{rank}" peptide="{h["peptide"]}" protein={quoteattr(_pfx(h["protein"], case) + descr)} '
                                f'num_tot_proteins="{1 + len(h["alts"])}" calc_neutral_pep_mass="{h["calc_mass"]!r}" massdiff="0.1"{opt}>')
-                    alts = [f'<alternative_protein protein={quoteattr(a + (" alt descr" if h["protein_descr"] else ""))}/>' for a in h["alts"]]
+                    alts = [f'<alternative_protein protein={quoteattr(_pfx(a, case) + (" alt descr" if h["protein_descr"] else ""))}/>' for a in h["alts"]]
                     mods = []
                     if h["mods"]:
                         mods.append(f'<modification_info modified_peptide="{h["peptide"]}">')
@@ -156,10 +163,10 @@ def expected_rows(case):
                         ins = "[" + m["mass"] + "]"
                         pep = pep[:i] + ins + pep[i:]
                         off += len(ins)
-                    prots = [h["protein"]] + h["alts"]
+                    prots = [_pfx(x, case) for x in [h["protein"]] + h["alts"]]
                     rows.append({"ms_data_file": name, "scan": sp["scan"], "charge": sp["charge"], "ret_time": sp["rt"],
                                  "exp_mass": sp["mass"], "calc_mass": h["calc_mass"], "peptide": pep,
-                                 "proteins": "\t".join(prots), "label": not all(p.startswith("decoy_") for p in prots),
+                                 "proteins": "\t".join(prots), "label": not all(p.startswith(case.get("decoy_prefix", "decoy_")) for p in prots),
                                  "scores": h["scores"], "opt": h["opt"]})
     return rows
 
@@ -186,13 +193,14 @@ def check(case):
         arg = paths if len(paths) > 1 else paths[0]
         if neg != "none":
             try:
-                mokapot.read_pepxml(arg, to_df=True)
+                mokapot.read_pepxml(arg, to_df=True, decoy_prefix=case.get("decoy_prefix", "decoy_"))
             except ValueError:
                 return {"nontrivial": True, "classes": ["negative-" + neg], "counters": {"negative": 1}}
             except Exception as e:  # noqa: BLE001
                 raise Violation("bad-input-wrong-error", f"{neg}: {type(e).__name__}: {e}") from None
             raise Violation("bad-input-accepted", f"{neg} input was parsed without an error")
-        df = guarded(mokapot.read_pepxml, arg, to_df=True, sig="read_pepxml")
+        dp = case.get("decoy_prefix", "decoy_")
+        df = guarded(mokapot.read_pepxml, arg, to_df=True, decoy_prefix=dp, sig="read_pepxml")
         exp = expected_rows(case)
         require(len(df) == len(exp), "psm-count", f"{len(df)} PSMs for {len(exp)} search hits")
         recs = df.to_dict("records")
@@ -220,10 +228,13 @@ def check(case):
                 require("missed_cleavages" not in g and "ntt" not in g, "optional-attribute", "absent attributes produced columns")
         labels = [e["label"] for e in exp]
         if any(labels) and not all(labels):
-            ds = guarded(mokapot.read_pepxml, arg, sig="read_pepxml")
+            excl = case["score_names"][0] if (case.get("exclude") and len(case["score_names"]) >= 2) else None
+            ds = guarded(mokapot.read_pepxml, arg, decoy_prefix=dp, exclude_features=excl, sig="read_pepxml")
             require(len(ds) == len(exp) and list(ds.targets) == labels, "dataset-labels", "LinearPsmDataset targets differ from the labels")
             feats = set(ds._feature_columns)
-            require(set(case["score_names"]) <= feats, "dataset-features", f"scores missing from the features: {set(case['score_names']) - feats}")
+            want_feats = set(case["score_names"]) - ({excl} if excl else set())
+            require(want_feats <= feats, "dataset-features", f"scores missing from the features: {want_feats - feats}")
+            require(excl is None or excl not in feats, "dataset-features", f"excluded feature {excl} is still a feature")
             require(not ({"label", "proteins", "peptide", "scan", "ms_data_file"} & feats), "dataset-features", "metadata used as feature")
     multi_mod = any(len(h["mods"]) >= 2 for f in case["files"] for r in f["runs"] for s in r["spectra"] for h in s["hits"])
     mixed = any(len({p.startswith("decoy_") for p in [h["protein"]] + h["alts"]}) == 2 for f in case["files"] for r in f["runs"] for s in r["spectra"] for h in s["hits"])
